@@ -54,18 +54,33 @@ class Dialect:
         return self._lr0
 
     # ---------------------------------------------------------------- grammar utilities
+    NICE = {'ID': 3, 'INTEGER': 2, 'QUOTE_STRING': 2, 'STAR': 1}
+    # expansions that satisfy the actions' own semantic checks (a bare `SELECT *` cannot take WHERE/GROUP BY/ORDER BY)
+    PREFERRED = {'select': ['SELECT', 'ID', 'FROM', 'ID']}
+
     def min_expansions(self):
-        """shortest terminal string (list of token kinds) derivable from every symbol."""
+        """shortest terminal string (list of token kinds) derivable from every symbol; ties are broken towards plain
+        identifiers / literals; PREFERRED overrides are kept when the grammar has that nonterminal."""
         if self._minexp is not None:
             return self._minexp
         best = {t: [t] for t in self.terminals}
+        fixed = set()
+        for n, kinds in self.PREFERRED.items():
+            if n in self.nonterminals and all(k in self.terminals for k in kinds):
+                best[n] = list(kinds)
+                fixed.add(n)
+
+        def score(c):
+            return (len(c), -sum(self.NICE.get(t, 0) for t in c))
         changed = True
         while changed:
             changed = False
             for p in self.prods[1:]:
+                if p.name in fixed:
+                    continue
                 if all(s in best for s in p.prod):
                     cand = [t for s in p.prod for t in best[s]]
-                    if p.name not in best or len(cand) < len(best[p.name]):
+                    if p.name not in best or score(cand) < score(best[p.name]):
                         best[p.name] = cand
                         changed = True
         self._minexp = best
